@@ -31,7 +31,7 @@ def mc_cfgs(ctx: Ctx) -> list:
         else:
             stack = tb.gen_stack(rng, base, rng.randint(0, 2), force_tl=0.5)
         c = tb.gen_ac_policy(rng, tb.with_stack(base, stack), K=2)
-        c.update(g2=rng.choice([1, 2, 0]), l2=rng.choice([1, 2, 0]), H=rng.choice([2, 3, 3]))
+        c.update(g2=rng.choice([1, 2, 0]), l2=rng.choice([1, 2, 0]), H=rng.choice([2, 3, 3]), an=2)
         cfgs.append(c)
     return cfgs
 
@@ -76,10 +76,12 @@ def record(ctx: Ctx, templates: list, per_template: int, iters: int = 2, cache=N
                 force_coincidence(ctx.rng, cfg)
             cfg = tb.gen_ac_policy(ctx.rng, cfg)
             cfg.update(g2=ctx.rng.choice([1, 1, 2, 0]), l2=2 if t["algo"] == "REINFORCE" else ctx.rng.choice([1, 2, 0]),
-                       H=t["H"])
+                       H=t["H"], an=ctx.rng.choice([1, 2, 3, 4]))
             seed = ctx.rng.randrange(2 ** 31)
             trs = dop.record_onpolicy(cache, cfg, t["algo"], t["N"], iters, seed)
             for tr in trs:
+                if tr["meta"]["dones_so_far"] > 8:
+                    continue        # more than 8 episode ends: the EMA leaves the exact fixed-point range (SD = 4^8)
                 traces.append(tr)
                 cases.append({"cfg": cfg, "algo": t["algo"], "N": t["N"], "iters": iters, "seed": seed,
                               "env": tr["meta"]["env"], "iter": tr["meta"]["iter"]})
@@ -132,10 +134,12 @@ def self_test(ctx: Ctx, traces, verdicts) -> int:
         raise Machinery("on-policy self-test: no accepted trace to corrupt")
     muts = []
     for n, (field, f) in enumerate((("rew", lambda x: x + 1), ("done", lambda x: not x), ("logp", lambda x: x - 1),
-                                    ("val", lambda x: x + 1), ("pstate", lambda x: x + 1), ("adv", None))):
+                                    ("val", lambda x: x + 1), ("pstate", lambda x: x + 1), ("adv", None), ("stats", None))):
         t = copy.deepcopy(traces[good[n % len(good)]])
         if field == "adv":
             t["final"]["adv"][0] += 1
+        elif field == "stats":
+            t["final"]["stats"]["ret"] += 1
         else:
             r = t["rows"][len(t["rows"]) // 2]
             r[field] = f(r[field])
